@@ -35,7 +35,7 @@ def run_module(mod, repo, verif, timeout=3000):
             f.write('\n' + text)
         env = dict(os.environ, CARGO_TARGET_DIR=os.path.join(verif, '.cache', 'target'), CARGO_NET_OFFLINE='true',
                    RUST_BACKTRACE='0')
-        cmd = ['cargo', 'test', '--offline', '--lib', '--no-default-features', '--features', FEATURES,
+        cmd = ['cargo', 'test', '--offline', '--lib', '--no-default-features', '--features', mod.get('features', FEATURES),
                mod['filter'], '--', '--test-threads', '4']
         # one cargo build+run at a time in the shared target directory: the test binary's name does not depend on
         # the scratch path, so a concurrent check could otherwise replace it between build and run
